@@ -242,7 +242,26 @@ func init() {
 					if sep, ok := constString(inner.Y); !ok || sep != "://" {
 						bad = append(bad, fmt.Sprintf("separator %v, want \"://\"", inner.Y))
 					}
-					if x, ok := loadOfField(inner.X, "profile:defaultScheme"); !ok || retry.Root(x) != recv {
+					x, ok := loadOfField(inner.X, "profile:defaultScheme")
+					if !ok {
+						// the field may live in a struct the profile holds by value
+						if ld, isLd := inner.X.(*ssa.UnOp); isLd && ld.Op == token.MUL {
+							if fa, isFa := ld.X.(*ssa.FieldAddr); isFa {
+								if fld, isP := profileFieldOf(fa); isP && fld == "defaultScheme" {
+									root := fa.X
+									for {
+										up, isUp := root.(*ssa.FieldAddr)
+										if !isUp {
+											break
+										}
+										root = up.X
+									}
+									x, ok = root, true
+								}
+							}
+						}
+					}
+					if !ok || retry.Root(x) != recv {
 						bad = append(bad, "the prefix is not the profile's defaultScheme")
 					}
 				}
